@@ -231,6 +231,7 @@ SPECIAL_BODIES = {
                                          extra=("RRULE:FREQ=WEEKLY;COUNT=5",)),
     "recurring-tz": lambda: gamma.ics_event("special-rrule-2", "Daily", dtstart="20200301T090000Z", dtend="20200301T093000Z",
                                             extra=("RRULE:FREQ=DAILY;COUNT=3",)),
+    "todo-uid-u": lambda: gamma.ics_event("special-uid-u", "a task holding the UID", comp="VTODO", dtend=None),
     "uid-is-a": lambda: gamma.ics_event("a", "UID spells the stem of a.ics"),
     "uid-is-path": lambda: gamma.ics_event("cal2/x", "UID with a slash"),
     "uid-u-1": lambda: gamma.ics_event("special-uid-u", "holder one"),
@@ -243,11 +244,11 @@ def _special_body(name):
 
 
 def run_witness_session(steps, frontend="wsgi", prefix="/", backend="tree", principal="/user/", audit_git=True,
-                        gitconf=""):
+                        gitconf="", index_threshold=None):
     """An explicit history (the witness of a listed finding): steps are [method name, args...]
     of DavSession, e.g. ["mk", "cal1", "calendar"], ["propupdate", "cal1", [["displayname", "x"]]]."""
     s = DavSession(frontend=frontend, prefix=prefix, backend=backend, principal=principal, audit_git=audit_git,
-                   gitconf=gitconf)
+                   gitconf=gitconf, index_threshold=index_threshold)
     try:
         for st in steps:
             args = list(st[1:])
